@@ -283,6 +283,7 @@ func blockOnListChange(ctx *cmdContext, keyName string, timeoutNs int64, op func
 		op,
 		func() string { return fmt.Sprintf("key '%s'", keyName) },
 		func() *wakeSignal { return ctx.dsc.ds.enterListBlock(keyName) },
+		[]string{keyName},
 	)
 }
 
@@ -293,6 +294,7 @@ func blockOnListChangeMultiKey(ctx *cmdContext, keyNames []string, timeoutNs int
 		op,
 		func() string { return fmt.Sprintf("keys %s", keyNames) },
 		func() *wakeSignal { return ctx.dsc.ds.enterListMultiBlock(keyNames) },
+		keyNames,
 	)
 }
 
@@ -302,6 +304,7 @@ func blockOnListChangeWorker(
 	op func() (output respValue),
 	keyNameStr func() string,
 	blockFn func() *wakeSignal,
+	keyNames []string,
 ) (output respValue) {
 
 	// initial non blocking call
@@ -359,7 +362,9 @@ func blockOnListChangeWorker(
 				return false
 			}
 		}() {
-			// select above returned true - the command is done
+			// select above returned true - the command is done; a push may have picked this
+			// client in the meantime, so hand the wake-up to the next waiter
+			ctx.dsc.ds.passOnWake(keyNames)
 			return
 		}
 
@@ -368,7 +373,14 @@ func blockOnListChangeWorker(
 		if output.data != nil {
 			return
 		}
-		// a different client obtained the list element before this client could, so try again
+		// a different client obtained the list element before this client could: the wake-up
+		// took this client out of the wait lists, so get back in line (at the front) and look
+		// once more before sleeping, in case a push arrived in between
+		ctx.dsc.ds.reenterListBlock(ws, keyNames)
+		output = op()
+		if output.data != nil {
+			return
+		}
 	}
 }
 
